@@ -91,6 +91,8 @@ def coerce(v, ty: Ty, st=None):
         return V(ty, v.ty.sort().v(v.z))
     if isinstance(ty, TRef) and isinstance(v.ty, TRef):
         return V(ty, v.z)  # sub/superclass views share the reference
+    if isinstance(ty, TRef) and isinstance(v.ty, TOpt) and isinstance(v.ty.inner, TRef):
+        return V(ty, v.ty.sort().v(v.z))  # narrowing of an Optional reference, then the class view (as the two cases above)
     raise Unsupported(f"cannot coerce {v.ty} to {ty}")
 
 
